@@ -370,8 +370,6 @@ def compare_lines(ops, impl, model):
         if k in ("att", "atts", "atts0", "prop", "sign", "msign"):
             f_ = op.split()
             fl_ = f_[5] if k in ("att", "prop", "sign") and len(f_) > 5 else (f_[3] if k in ("atts", "msign") and len(f_) > 3 else "-")
-            if "u" in fl_.split(","):
-                continue     # lock state undeterminable: judged by "no signature", not by the model's states
             if states_of(il) != states_of(ml):
                 bad.append((i, op, il, ml))
         else:
